@@ -283,7 +283,15 @@ func ChartFiles(c Case, f Fmt, h Host) []*loader.BufferedFile {
 			add(pre+"values.schema.json", schemaJSON(c.Schema, h))
 		}
 		if contains(c.Crds, ch) {
-			add(pre+"crds/crd.yaml", fmt.Sprintf("apiVersion: apiextensions.k8s.io/v1\nkind: CustomResourceDefinition\nmetadata:\n  name: crd-%s\nspec:\n  group: verif.example\n", ch))
+			crd := func(n string) string {
+				return fmt.Sprintf("apiVersion: apiextensions.k8s.io/v1\nkind: CustomResourceDefinition\nmetadata:\n  name: crd-%s%s\nspec:\n  group: verif.example\n", ch, n)
+			}
+			if ch == "p" { // the parent carries TWO files under crds/ (their relative order follows the file load order)
+				add(pre+"crds/a.yaml", crd("-a"))
+				add(pre+"crds/b.yaml", crd("-b"))
+			} else {
+				add(pre+"crds/crd.yaml", crd(""))
+			}
 		}
 	}
 	tname := func(rank int) string { // chart-relative file name of a template path
